@@ -3,6 +3,7 @@
    create_dummy_in_mem_geff returns, the structure validation of what create_mock_geff
    writes, and the equality of the store view and the in-memory view. *)
 From Coq Require Import ZifyBool.
+From Coq Require Import Permutation.
 From Geff Require Import Base Dtype DtypeLemmas GraphVal GraphValLemmas Vlen VlenLemmas Mock.
 Open Scope Z_scope.
 Open Scope list_scope.
@@ -29,6 +30,13 @@ Proof.
   - intro Hin. apply in_app_or in Hin. destruct Hin as [Hin|Hin]; [exact (Hn Hin)|].
     apply (Hd x); [left; reflexivity | exact Hin].
   - apply IH; [exact Hr | exact H2 |]. intros y Hy1 Hy2. apply (Hd y); [right; exact Hy1 | exact Hy2].
+Qed.
+
+Lemma NoDup_middle {A} (a b c : list A) :
+  NoDup (a ++ c) -> NoDup b -> (forall x, In x b -> ~ In x (a ++ c)) -> NoDup (a ++ b ++ c).
+Proof.
+  intros Hac Hb Hd. apply (Permutation_NoDup (l := b ++ a ++ c)); [apply Permutation_app_swap_app|].
+  apply NoDup_app_intro; [exact Hb | exact Hac | intros x H1 H2; exact (Hd x H1 H2)].
 Qed.
 
 Lemma NoDup_flat_map {A B} (f : A -> list B) (l : list A) :
@@ -284,12 +292,19 @@ Definition meta_of (e : entry) : pmeta :=
   end.
 
 (* an array fit for `count` graph elements *)
+(* the dtype PropMetadata is asked to record is one of VALID_DTYPES *)
+Definition stored_ok (a : parr) : Prop :=
+  match a_payload a with
+  | PVarlen (e0 :: _) => storable (v_dt e0) = true
+  | PVarlen [] => True
+  | _ => storable (a_dt a) = true
+  end.
 Definition arr_wf (count : nat) (a : parr) : Prop :=
   a_len a = count /\ (forall ms, a_missing a = Some ms -> length ms = count) /\
   match a_payload a with
   | PVarlen elems => elems <> [] /\ uniform elems /\ Forall wf_varr elems /\ length elems = count /\ a_tail a = []
   | _ => True
-  end.
+  end /\ stored_ok a.
 
 Lemma uniform_forallb e0 r : uniform (e0 :: r) -> forallb (fun e => dtype_eqb (v_dt e) (v_dt e0)) (e0 :: r) = true.
 Proof.
@@ -299,11 +314,29 @@ Qed.
 
 Lemma cpm_ok name a u count : arr_wf count a -> create_props_metadata name a u = Ok (meta_of (name, a, u)).
 Proof.
-  intros [_ [_ H]]. unfold create_props_metadata, meta_of, e_arr, e_name, e_unit. cbn [fst snd].
-  destruct (a_payload a) as [k|x y k|k|s k| |elems]; try reflexivity.
+  intros [_ [_ [H Hst]]]. unfold create_props_metadata, meta_of, e_arr, e_name, e_unit, stored_ok in *. cbn [fst snd].
+  destruct (a_payload a) as [k|x y k|k|s k| |elems]; try (rewrite Hst; reflexivity).
   destruct H as [Hne [Hu _]]. destruct elems as [|e0 r]; [contradiction|].
-  rewrite (uniform_forallb e0 r Hu). reflexivity.
+  rewrite (uniform_forallb e0 r Hu), Hst. reflexivity.
 Qed.
+
+(* an array that PropMetadata accepts is not a float16 array: the upcast leaves it alone *)
+Lemma upcast_id count a : arr_wf count a -> upcast_arr a = a.
+Proof.
+  intros [_ [_ [_ Hst]]]. unfold upcast_arr, stored_ok in *.
+  destruct (a_payload a) as [k|x y k|k|s k| |elems]; try reflexivity;
+    (destruct (dtype_eqb (a_dt a) DF16) eqn:E; [|reflexivity]; apply dtype_eqb_eq in E; rewrite E in Hst; discriminate Hst).
+Qed.
+
+(* every dtype name numpy knows in the table is one PropMetadata accepts *)
+Lemma np_dtype_storable s dt : np_dtype s = Some dt -> storable dt = true.
+Proof.
+  unfold np_dtype, np_table. cbn [assoc].
+  repeat (match goal with |- context [String.eqb ?a s] => destruct (String.eqb a s) end;
+          [intro H; inversion H; reflexivity|]).
+  discriminate.
+Qed.
+
 
 Lemma meta_of_name e : pm_name (meta_of e) = e_name e.
 Proof. unfold meta_of. destruct (a_payload (e_arr e)) as [| | | | |[|e0 r]]; reflexivity. Qed.
@@ -322,10 +355,10 @@ Definition axis_rec (inc : bool) (n : nat) (name type unit : string) : list axis
 Definition axis_dtype_ok (inc : bool) (n : nat) (dts : string) : Prop :=
   inc = true -> exists dt, np_dtype dts = Some dt /\ ((0 < n)%nat -> is_numeric dt = true).
 
-Lemma mk_arr_wf dt n pl : not_varlen pl -> arr_wf n (mk_arr dt n pl).
+Lemma mk_arr_wf dt n pl : not_varlen pl -> storable dt = true -> arr_wf n (mk_arr dt n pl).
 Proof.
-  intro H. unfold arr_wf, mk_arr. cbn. split; [reflexivity|]. split; [intros ms Hms; discriminate|].
-  destruct pl; try exact I. contradiction.
+  intros H Hst. unfold arr_wf, stored_ok, mk_arr. cbn. split; [reflexivity|]. split; [intros ms Hms; discriminate|].
+  destruct pl; try (split; [exact I | exact Hst]). contradiction.
 Qed.
 
 Lemma add_axis_if_spec inc n name type unit dts pl ps ms axs st' :
@@ -340,7 +373,7 @@ Proof.
   intros Hpl H Hfresh. unfold add_axis_if, axis_entry, axis_rec, axis_dtype_ok in *. destruct inc.
   - unfold add_axis in H. destruct (np_dtype dts) as [dt|] eqn:Edt; [|discriminate].
     destruct (Nat.ltb 0 n && negb (is_numeric dt)) eqn:Eord; [discriminate|].
-    rewrite (cpm_ok name (mk_arr dt n pl) (Some unit) n (mk_arr_wf dt n pl Hpl)) in H.
+    rewrite (cpm_ok name (mk_arr dt n pl) (Some unit) n (mk_arr_wf dt n pl Hpl (np_dtype_storable _ _ Edt))) in H.
     rewrite dict_set_fresh in H by (apply Hfresh; reflexivity).
     inversion H; subst st'; clear H. split; [reflexivity|].
     intros _. exists dt. split; [reflexivity|]. intro Hn.
@@ -412,6 +445,9 @@ Definition dtype_payload (name dts : string) (count : nat) : payload :=
   if String.eqb dts "str" then PNames name count
   else if smem dts arange_dtype_names then PArange count else PLin 1 10 count.
 
+(* a float16 array comes back as float32 (create_props_metadata) *)
+Definition up_dt (dt : dtype) : dtype := if dtype_eqb dt DF16 then DF32 else dt.
+
 Definition extra_entry (count : nat) (kv : pkey * pval) : list entry :=
   match kv with
   | (KStr name, VDtype dts) =>
@@ -420,7 +456,7 @@ Definition extra_entry (count : nat) (kv : pkey * pval) : list entry :=
       | None => []
       end
   | (KStr name, VArray dt len tail) =>
-      [(name, {| a_dt := dt; a_len := len; a_tail := tail; a_payload := PGiven; a_missing := None |}, None)]
+      [(name, {| a_dt := up_dt dt; a_len := len; a_tail := tail; a_payload := PGiven; a_missing := None |}, None)]
   | _ => []
   end.
 Definition items_of (ex : extras) : list (pkey * pval) := match ex with EDict items => items | _ => [] end.
@@ -428,13 +464,18 @@ Definition extra_entries (count : nat) (ex : extras) : list entry := flat_map (e
 Definition item_names (items : list (pkey * pval)) : list string :=
   flat_map (fun kv => match fst kv with KStr s => [s] | KOther => [] end) items.
 
-(* a documented item: string key; a DTypeStr name or an array with one entry per graph element *)
+(* a documented item: string key; a DTypeStr name or an array with one entry per graph element whose dtype
+   (float16 counted as float32) is one geff can store -- not bytes, not object.  (An object array of arrays,
+   VObjArray, is modelled but left outside the statements: see plain_items.) *)
 Definition item_ok (count : nat) (kv : pkey * pval) : Prop :=
   match kv with
   | (KStr _, VDtype dts) => In dts prop_dtype_names
-  | (KStr _, VArray _ len _) => len = count
+  | (KStr _, VArray dt len _) => len = count /\ storable (up_dt dt) = true
   | _ => False
   end.
+(* the value is not an object array *)
+Definition plain_item (kv : pkey * pval) : Prop := match snd kv with VObjArray _ => False | _ => True end.
+Definition plain_items (ex : extras) : Prop := Forall plain_item (items_of ex).
 Definition extras_ok (count : nat) (ex : extras) : Prop :=
   ex <> ENotDict /\ Forall (item_ok count) (items_of ex).
 
@@ -449,67 +490,94 @@ Proof. unfold dtype_payload. destruct (String.eqb dts "str"); [exact I|]. destru
 
 Definition plain (e : entry) : Prop := not_varlen (a_payload (e_arr e)) /\ a_missing (e_arr e) = None /\ e_unit e = None.
 
-Lemma extra_one_spec count kv name a :
-  extra_one count kv = Ok (name, a) ->
-  item_ok count kv /\ extra_entry count kv = [(name, a, None)] /\ fst kv = KStr name /\
-  arr_wf count a /\ plain (name, a, None).
+Lemma upcast_given dt len tail :
+  upcast_arr {| a_dt := dt; a_len := len; a_tail := tail; a_payload := PGiven; a_missing := None |} =
+  {| a_dt := up_dt dt; a_len := len; a_tail := tail; a_payload := PGiven; a_missing := None |}.
+Proof. unfold upcast_arr, up_dt. cbn. destruct (dtype_eqb dt DF16); reflexivity. Qed.
+
+Lemma extra_one_spec reserved count kv name a m :
+  plain_item kv ->
+  extra_one reserved count kv = Ok (name, a) ->
+  create_props_metadata name (upcast_arr a) None = Ok m ->
+  item_ok count kv /\ extra_entry count kv = [(name, upcast_arr a, None)] /\ fst kv = KStr name /\
+  arr_wf count (upcast_arr a) /\ plain (name, upcast_arr a, None) /\ ~ In name reserved.
 Proof.
-  destruct kv as [[k|] v]; unfold extra_one; cbn [fst snd]; [|discriminate].
-  destruct v as [dts|dt len tail|]; [| |discriminate].
+  destruct kv as [[k|] v]; unfold extra_one, plain_item; cbn [fst snd]; [|discriminate].
+  destruct (smem k reserved) eqn:Eres; [discriminate|].
+  assert (Hres : ~ In k reserved) by (intro Hin; apply smem_In in Hin; congruence).
+  destruct v as [dts|dt len tail| |elems]; [| |discriminate|contradiction].
   - unfold gen_values. destruct (smem dts prop_dtype_names) eqn:Em; cbn [negb]; [|discriminate].
     apply smem_In in Em. destruct (np_dtype dts) as [dt|] eqn:Edt; [|discriminate].
-    intro H. inversion H; subst name a; clear H.
-    cbn [item_ok extra_entry]. rewrite Edt. fold (dtype_payload k dts count).
+    intros _ H _. fold (dtype_payload k dts count) in H. inversion H; subst name a; clear H.
+    cbn [item_ok extra_entry]. rewrite Edt.
+    pose proof (mk_arr_wf dt count (dtype_payload k dts count) (dtype_payload_not_varlen _ _ _) (np_dtype_storable _ _ Edt)) as Hwf.
+    rewrite (upcast_id count _ Hwf).
     split; [exact Em|]. split; [reflexivity|]. split; [reflexivity|].
-    split; [apply mk_arr_wf; apply dtype_payload_not_varlen|].
-    split; [apply dtype_payload_not_varlen | split; reflexivity].
+    split; [exact Hwf|].
+    split; [|exact Hres]. split; [apply dtype_payload_not_varlen | split; reflexivity].
   - destruct (Nat.eqb len count) eqn:El; [|discriminate]. apply Nat.eqb_eq in El.
-    intro H. inversion H; subst name a; clear H. cbn [item_ok extra_entry].
-    split; [exact El|]. split; [reflexivity|]. split; [reflexivity|].
-    split; [|split; [exact I | split; reflexivity]].
-    unfold arr_wf. cbn. split; [exact El|]. split; [intros ms Hms; discriminate | exact I].
+    intros _ H Hc. inversion H; subst name a; clear H. rewrite upcast_given in *. cbn [item_ok extra_entry].
+    assert (Hst : storable (up_dt dt) = true).
+    { unfold create_props_metadata in Hc. cbn [a_payload a_dt] in Hc. destruct (storable (up_dt dt)); [reflexivity | discriminate]. }
+    split; [split; [exact El | exact Hst]|]. split; [reflexivity|]. split; [reflexivity|].
+    split; [|split; [split; [exact I | split; reflexivity] | exact Hres]].
+    unfold arr_wf, stored_ok. cbn. split; [exact El|]. split; [intros ms Hms; discriminate | split; [exact I | exact Hst]].
 Qed.
 
-Lemma add_extras_spec count items : forall ps ms ps' ms',
-  add_extras count items ps ms = Ok (ps', ms') ->
-  NoDup (map fst ps ++ item_names items) ->
+Lemma add_extras_spec reserved count items : forall ps ms ps' ms',
+  Forall plain_item items ->
+  add_extras reserved count items ps ms = Ok (ps', ms') ->
+  NoDup (item_names items) ->
+  (forall x, In x (map fst ps) -> In x (item_names items) -> In x reserved) ->
   ps' = ps ++ map e_kv (flat_map (extra_entry count) items) /\
   ms' = ms ++ map meta_of (flat_map (extra_entry count) items) /\
   map e_name (flat_map (extra_entry count) items) = item_names items /\
   Forall (fun e => arr_wf count (e_arr e) /\ plain e) (flat_map (extra_entry count) items) /\
-  Forall (item_ok count) items.
+  Forall (item_ok count) items /\
+  (forall x, In x (item_names items) -> ~ In x reserved).
 Proof.
-  induction items as [|kv r IH]; intros ps ms ps' ms' H Hnd; cbn [add_extras] in H.
-  - inversion H; subst. cbn. rewrite !app_nil_r. repeat split; constructor.
-  - destruct (extra_one count kv) as [[name a]|] eqn:E1; [|discriminate].
-    apply extra_one_spec in E1. destruct E1 as [Hok [Hent [Hkey [Hwf Hplain]]]].
-    rewrite (cpm_ok name a None count Hwf) in H.
+  induction items as [|kv r IH]; intros ps ms ps' ms' Hpl H Hnd Hps; cbn [add_extras] in H.
+  - inversion H; subst. cbn. rewrite !app_nil_r. repeat split; try constructor. intros x [].
+  - inversion Hpl as [|? ? Hpl1 Hplr]; subst.
+    destruct (extra_one reserved count kv) as [[name a]|] eqn:E1; [|discriminate].
+    cbv zeta in H.
+    destruct (create_props_metadata name (upcast_arr a) None) as [m|] eqn:Ec; [|discriminate].
+    destruct (extra_one_spec reserved count kv name a m Hpl1 E1 Ec) as [Hok [Hent [Hkey [Hwf [Hplain Hres]]]]].
+    rewrite (cpm_ok name (upcast_arr a) None count Hwf) in Ec. inversion Ec; subst m; clear Ec.
     assert (Hnames : item_names (kv :: r) = name :: item_names r).
     { unfold item_names. cbn [flat_map]. rewrite Hkey. reflexivity. }
-    rewrite Hnames in Hnd.
-    rewrite dict_set_fresh in H by (apply NoDup_app_r_fresh in Hnd; exact Hnd).
-    apply IH in H.
-    + destruct H as [-> [-> [Hn [Hf Hi]]]]. cbn [flat_map]. rewrite Hent. cbn [app map].
+    rewrite Hnames in Hnd, Hps. inversion Hnd as [|? ? Hfresh Hndr]; subst.
+    rewrite dict_set_fresh in H.
+    2:{ intro Hin. apply Hres. apply Hps; [exact Hin | left; reflexivity]. }
+    apply IH in H; [|exact Hplr|exact Hndr|].
+    + destruct H as [-> [-> [Hn [Hf [Hi Hr]]]]]. cbn [flat_map]. rewrite Hent. cbn [app map].
       rewrite <- !app_assoc. cbn [app]. repeat split.
       * rewrite Hnames. unfold e_name at 1. cbn [fst]. f_equal. exact Hn.
       * constructor; [split; assumption | exact Hf].
       * constructor; assumption.
-    + rewrite map_app. cbn [map fst]. rewrite <- app_assoc. exact Hnd.
+      * rewrite Hnames. intros x [<-|Hx]; [exact Hres | apply Hr; exact Hx].
+    + intros x Hx Hxr. rewrite map_app in Hx. cbn [map fst] in Hx. apply in_app_or in Hx. destruct Hx as [Hx|[<-|[]]].
+      * apply Hps; [exact Hx | right; exact Hxr].
+      * contradiction.
 Qed.
 
-Lemma with_extras_spec ex count ps ms ps' ms' :
-  with_extras ex count ps ms = Ok (ps', ms') ->
-  NoDup (map fst ps ++ item_names (items_of ex)) ->
+Lemma with_extras_spec ex reserved count ps ms ps' ms' :
+  plain_items ex ->
+  with_extras ex reserved count ps ms = Ok (ps', ms') ->
+  NoDup (item_names (items_of ex)) ->
+  (forall x, In x (map fst ps) -> In x reserved) ->
   ps' = ps ++ map e_kv (extra_entries count ex) /\
   ms' = ms ++ map meta_of (extra_entries count ex) /\
   map e_name (extra_entries count ex) = item_names (items_of ex) /\
   Forall (fun e => arr_wf count (e_arr e) /\ plain e) (extra_entries count ex) /\
-  extras_ok count ex.
+  extras_ok count ex /\
+  (forall x, In x (item_names (items_of ex)) -> ~ In x reserved).
 Proof.
-  unfold with_extras, extra_entries, extras_ok. destruct ex as [| |items]; cbn [items_of]; intros H Hnd.
-  - inversion H; subst. cbn. rewrite !app_nil_r. repeat split; try constructor. discriminate.
+  unfold with_extras, extra_entries, extras_ok, plain_items. destruct ex as [| |items]; cbn [items_of]; intros Hpl H Hnd Hps.
+  - inversion H; subst. cbn. rewrite !app_nil_r. repeat split; try constructor. discriminate. intros x [].
   - discriminate.
-  - apply add_extras_spec in H; [|exact Hnd]. destruct H as [H1 [H2 [H3 [H4 H5]]]].
+  - apply add_extras_spec in H; [|exact Hpl|exact Hnd|intros x Hx _; apply Hps; exact Hx].
+    destruct H as [H1 [H2 [H3 [H4 [H5 H6]]]]].
     repeat split; try assumption. discriminate.
 Qed.
 
@@ -519,9 +587,9 @@ Proof. unfold wf_varr, varlen_elem, size. cbn. rewrite repeat_length. lia. Qed.
 
 Lemma varlen_prop_wf n : (0 < n)%nat -> arr_wf n (varlen_prop n).
 Proof.
-  intro Hn. unfold arr_wf, varlen_prop. cbn. split; [reflexivity|]. split.
+  intro Hn. unfold arr_wf, stored_ok, varlen_prop. cbn [a_len a_missing a_payload a_tail a_dt]. split; [reflexivity|]. split.
   - intros ms H. inversion H. rewrite map_length, seq_length. reflexivity.
-  - repeat split.
+  - split; [|destruct n; [lia | reflexivity]]. repeat split.
     + destruct n; [lia|]. cbn. discriminate.
     + destruct n; [lia|]. unfold uniform, uniform_with. cbn [map seq].
       apply Forall_forall. intros x Hx. change (varlen_elem 0 :: map varlen_elem (seq 1 n)) with (map varlen_elem (seq 0 (S n))) in Hx.
@@ -532,7 +600,7 @@ Qed.
 
 Lemma sparse_prop_wf k : arr_wf k (sparse_prop k).
 Proof.
-  unfold arr_wf, sparse_prop. cbn. split; [reflexivity|]. split; [|exact I].
+  unfold arr_wf, stored_ok, sparse_prop. cbn. split; [reflexivity|]. split; [|split; [exact I | reflexivity]].
   intros ms H. inversion H. rewrite map_length, seq_length. reflexivity.
 Qed.
 
@@ -585,10 +653,60 @@ Definition flag_names_n (p : params) : list string :=
   (if p_varlen p then [s_var_length] else []) ++ (if p_missing p then [s_sparse_prop] else []).
 Definition flag_names_e (p : params) : list string := if p_missing p then [s_sparse_prop] else [].
 
-(* the request is not contradictory: no two properties of the same name on one side *)
+(* the request is not contradictory: no two properties of the same name on one side (as repaired, the
+   generators reject a request that is: dummy_spec below derives names_ok from acceptance) *)
 Definition names_ok (p : params) : Prop :=
   NoDup (axis_names p ++ item_names (items_of (p_enp p)) ++ flag_names_n p) /\
   NoDup (item_names (items_of (p_eep p)) ++ flag_names_e p).
+
+(* What every theorem supposes about the parameters; it restricts nothing the documented interface offers:
+   - the keys of a Python dict are distinct (the model writes a dict as a list of items);
+   - no extra property is given as an object array of arrays (the model handles those, VObjArray, and the
+     correspondence runs them, but the statements below do not speak about them). *)
+Definition dict_keys_ok (p : params) : Prop :=
+  NoDup (item_names (items_of (p_enp p))) /\ NoDup (item_names (items_of (p_eep p))).
+Definition req_wf (p : params) : Prop := dict_keys_ok p /\ plain_items (p_enp p) /\ plain_items (p_eep p).
+
+Lemma generated_node_eq p :
+  generated_node (p_t p) (p_z p) (p_y p) (p_x p) (p_varlen p) (p_missing p) = axis_names p ++ flag_names_n p.
+Proof. reflexivity. Qed.
+Lemma generated_edge_eq p : generated_edge (p_missing p) = flag_names_e p.
+Proof. reflexivity. Qed.
+
+Lemma generated_nodup p : NoDup (axis_names p ++ flag_names_n p).
+Proof.
+  unfold axis_names, flag_names_n.
+  destruct (p_t p), (p_z p), (p_y p), (p_x p), (p_varlen p), (p_missing p); cbn [app];
+    repeat (constructor; [cbn; intuition discriminate|]); constructor.
+Qed.
+
+Lemma names_ok_intro p :
+  dict_keys_ok p ->
+  (forall x, In x (item_names (items_of (p_enp p))) -> ~ In x (axis_names p ++ flag_names_n p)) ->
+  (forall x, In x (item_names (items_of (p_eep p))) -> ~ In x (flag_names_e p)) ->
+  names_ok p.
+Proof.
+  intros [Hdn Hde] Hn He. split.
+  - apply NoDup_middle; [apply generated_nodup | exact Hdn | exact Hn].
+  - apply NoDup_app_intro; [exact Hde | unfold flag_names_e; destruct (p_missing p); repeat constructor; intros [] |].
+    intros x H1 H2. exact (He x H1 H2).
+Qed.
+
+Lemma names_ok_elim p : names_ok p ->
+  dict_keys_ok p /\
+  (forall x, In x (item_names (items_of (p_enp p))) -> ~ In x (axis_names p ++ flag_names_n p)) /\
+  (forall x, In x (item_names (items_of (p_eep p))) -> ~ In x (flag_names_e p)).
+Proof.
+  intros [Hn He].
+  assert (Hn' : NoDup (item_names (items_of (p_enp p)) ++ axis_names p ++ flag_names_n p)).
+  { apply (Permutation_NoDup (l := axis_names p ++ item_names (items_of (p_enp p)) ++ flag_names_n p));
+      [apply Permutation_app_swap_app | exact Hn]. }
+  split; [split; [apply NoDup_app_l in Hn'; exact Hn' | apply NoDup_app_l in He; exact He]|]. split.
+  - intros x Hx Hg. apply in_split in Hx. destruct Hx as [l1 [l2 Heq]]. rewrite Heq, <- app_assoc in Hn'. cbn [app] in Hn'.
+    apply NoDup_remove_2 in Hn'. apply Hn'. apply in_or_app. right. apply in_or_app. right. exact Hg.
+  - intros x Hx Hg. apply in_split in Hx. destruct Hx as [l1 [l2 Heq]]. rewrite Heq, <- app_assoc in He. cbn [app] in He.
+    apply NoDup_remove_2 in He. apply He. apply in_or_app. right. apply in_or_app. right. exact Hg.
+Qed.
 
 Definition spec_geff (p : params) (iddt : dtype) : geff :=
   {| g_meta := {| m_directed := p_directed p; m_axes := axis_recs p (nn p);
@@ -602,29 +720,33 @@ Definition accepted_params (p : params) (iddt : dtype) : Prop :=
   (is_integer iddt = true -> p_n p <= dt_max iddt + 1) /\
   axes_dtypes_ok p (nn p) /\
   extras_ok (nn p) (p_enp p) /\ extras_ok (ne p) (p_eep p) /\
-  (p_varlen p = true -> (0 < nn p)%nat).
+  (p_varlen p = true -> (0 < nn p)%nat) /\
+  is_numeric iddt = true.                                      (* np.arange(n, dtype="str") is a TypeError *)
 
 Lemma sparse_entries_names inc k : map e_name (sparse_entries inc k) = if inc then [s_sparse_prop] else [].
 Proof. destruct inc; reflexivity. Qed.
 Lemma varlen_entries_names inc k : map e_name (varlen_entries inc k) = if inc then [s_var_length] else [].
 Proof. destruct inc; reflexivity. Qed.
 
-Theorem dummy_spec p g : names_ok p -> dummy p = Ok g ->
-  exists iddt, accepted_params p iddt /\ g = spec_geff p iddt.
+Theorem dummy_spec p g : req_wf p -> dummy p = Ok g ->
+  exists iddt, accepted_params p iddt /\ names_ok p /\ g = spec_geff p iddt.
 Proof.
-  intros [Hn He] H. unfold dummy in H.
+  intros [[Hdn Hde] [Hpn Hpe]] H. unfold dummy in H.
   destruct (np_dtype (p_id p)) as [iddt|] eqn:Eid; [|discriminate].
   destruct (is_integer iddt && (dt_max iddt + 1 <? p_n p)) eqn:Ecap; [discriminate|].
+  destruct (is_numeric iddt) eqn:Enum; cbn [negb] in H; [|discriminate].
   cbv zeta in H. fold (nn p) in H. fold (pedges p) in H. fold (ne p) in H.
   destruct (add_axes p (nn p)) as [[[np0 nm0] axes]|] eqn:E0; [|discriminate].
   apply add_axes_spec in E0. destruct E0 as [E0 [Hax Hnames]]. inversion E0; subst np0 nm0 axes; clear E0.
-  destruct (with_extras (p_enp p) (nn p) _ _) as [[np1 nm1]|] eqn:E1; [|discriminate].
-  apply with_extras_spec in E1.
-  2:{ rewrite map_fst_e_kv, Hnames. rewrite app_assoc in Hn. apply NoDup_app_l in Hn. exact Hn. }
-  destruct E1 as [-> [-> [Hxn [_ Hxo]]]].
-  destruct (with_extras (p_eep p) (ne p) [] []) as [[ep1 em1]|] eqn:E2; [|discriminate].
-  apply with_extras_spec in E2; [|cbn [map fst app]; apply NoDup_app_l in He; exact He].
-  destruct E2 as [-> [-> [Hen [_ Heo]]]]. cbn [app] in H.
+  rewrite generated_node_eq, generated_edge_eq in H.
+  destruct (with_extras (p_enp p) _ (nn p) _ _) as [[np1 nm1]|] eqn:E1; [|discriminate].
+  apply with_extras_spec in E1; [|exact Hpn|exact Hdn|].
+  2:{ intros x Hx. rewrite map_fst_e_kv, Hnames in Hx. apply in_or_app. left. exact Hx. }
+  destruct E1 as [-> [-> [Hxn [_ [Hxo Hrn]]]]].
+  destruct (with_extras (p_eep p) _ (ne p) [] []) as [[ep1 em1]|] eqn:E2; [|discriminate].
+  apply with_extras_spec in E2; [|exact Hpe|exact Hde|intros x []].
+  destruct E2 as [-> [-> [Hen [_ [Heo Hre]]]]]. cbn [app] in H.
+  pose proof (names_ok_intro p (conj Hdn Hde) Hrn Hre) as Hnok. destruct Hnok as [Hn He].
   destruct (add_varlen (p_varlen p) (nn p) _ _) as [[np2 nm2]|] eqn:E3; [|discriminate].
   apply add_varlen_spec in E3.
   2:{ intros Hv Hin. rewrite map_app, !map_fst_e_kv, Hnames, Hxn in Hin.
@@ -643,8 +765,8 @@ Proof.
   exists iddt. split.
   - split; [exact Eid|]. split.
     + intro Hi. rewrite Hi in Ecap. cbn in Ecap. lia.
-    + split; [exact Hax|]. split; [exact Hxo|]. split; [exact Heo | exact Hvl].
-  - unfold spec_geff, node_entries, edge_entries, arange_ids. fold (nn p).
+    + split; [exact Hax|]. split; [exact Hxo|]. split; [exact Heo | split; [exact Hvl | exact Enum]].
+  - split; [split; assumption|]. unfold spec_geff, node_entries, edge_entries, arange_ids. fold (nn p).
     rewrite <- !map_app, <- !app_assoc.
     rewrite !add_or_update_fresh.
     + reflexivity.
@@ -677,14 +799,14 @@ Qed.
 Lemma extra_entry_ok count kv : item_ok count kv ->
   exists name a, extra_entry count kv = [(name, a, None)] /\ fst kv = KStr name /\ arr_wf count a /\ plain (name, a, None).
 Proof.
-  destruct kv as [[k|] [dts|dt len tail|]]; cbn [item_ok]; intro H; try contradiction.
+  destruct kv as [[k|] [dts|dt len tail| |elems]]; cbn [item_ok]; intro H; try contradiction.
   - destruct (prop_dtype_names_known dts H) as [dt Hdt]. cbn [extra_entry]. rewrite Hdt.
     eexists _, _. split; [reflexivity|]. split; [reflexivity|].
-    split; [apply mk_arr_wf; apply dtype_payload_not_varlen|].
+    split; [apply mk_arr_wf; [apply dtype_payload_not_varlen | exact (np_dtype_storable _ _ Hdt)]|].
     split; [apply dtype_payload_not_varlen | split; reflexivity].
-  - subst len. cbn [extra_entry]. eexists _, _. split; [reflexivity|]. split; [reflexivity|].
+  - destruct H as [Hlen Hst]. subst len. cbn [extra_entry]. eexists _, _. split; [reflexivity|]. split; [reflexivity|].
     split; [|split; [exact I | split; reflexivity]].
-    unfold arr_wf. cbn. split; [reflexivity|]. split; [intros ms Hms; discriminate | exact I].
+    unfold arr_wf, stored_ok. cbn. split; [reflexivity|]. split; [intros ms Hms; discriminate | split; [exact I | exact Hst]].
 Qed.
 
 Lemma extra_entries_facts count ex : extras_ok count ex ->
@@ -700,20 +822,20 @@ Qed.
 
 (* an axis entry is a plain 1-D array of node length without a mask *)
 Definition axis_like (n : nat) (e : entry) : Prop :=
-  exists dt pl, not_varlen pl /\ e_arr e = mk_arr dt n pl.
+  exists dt pl, not_varlen pl /\ storable dt = true /\ e_arr e = mk_arr dt n pl.
 
 Lemma axis_entry_like inc n name unit dts pl : not_varlen pl ->
   Forall (axis_like n) (axis_entry inc n name unit dts pl).
 Proof.
-  intro Hpl. unfold axis_entry. destruct inc; [|constructor]. destruct (np_dtype dts) as [dt|]; [|constructor].
-  constructor; [|constructor]. exists dt, pl. split; [exact Hpl | reflexivity].
+  intro Hpl. unfold axis_entry. destruct inc; [|constructor]. destruct (np_dtype dts) as [dt|] eqn:Edt; [|constructor].
+  constructor; [|constructor]. exists dt, pl. split; [exact Hpl | split; [exact (np_dtype_storable _ _ Edt) | reflexivity]].
 Qed.
 
 Lemma axis_entries_like p n : Forall (axis_like n) (axis_entries p n).
 Proof. unfold axis_entries. repeat (apply Forall_app; split); apply axis_entry_like; exact I. Qed.
 
 Lemma axis_like_wf n e : axis_like n e -> arr_wf n (e_arr e).
-Proof. intros [dt [pl [Hpl ->]]]. apply mk_arr_wf. exact Hpl. Qed.
+Proof. intros [dt [pl [Hpl [Hst ->]]]]. apply mk_arr_wf; assumption. Qed.
 
 Lemma node_entries_names p iddt : accepted_params p iddt ->
   map e_name (node_entries p) = axis_names p ++ item_names (items_of (p_enp p)) ++ flag_names_n p.
@@ -732,7 +854,7 @@ Qed.
 
 Lemma node_entries_wf p iddt : accepted_params p iddt -> Forall (fun e => arr_wf (nn p) (e_arr e)) (node_entries p).
 Proof.
-  intros [_ [_ [_ [Hxn [_ Hvl]]]]]. unfold node_entries.
+  intros [_ [_ [_ [Hxn [_ [Hvl _]]]]]]. unfold node_entries.
   apply Forall_app; split; [|apply Forall_app; split; [|apply Forall_app; split]].
   - eapply Forall_impl; [|apply axis_entries_like]. intros e. apply axis_like_wf.
   - destruct (extra_entries_facts _ _ Hxn) as [_ H]. eapply Forall_impl; [|exact H]. intros e [He _]. exact He.
@@ -777,8 +899,9 @@ Qed.
 Lemma write_prop_ok count name a : arr_wf count a ->
   write_prop (name, a) = Ok (meta_of (name, a, None), (name, sprop_of a)).
 Proof.
-  intro Hwf. unfold write_prop. cbn [fst snd]. rewrite (cpm_ok name a None count Hwf).
-  unfold sprop_of. destruct Hwf as [_ [_ Hp]].
+  intro Hwf. unfold write_prop. cbn [fst snd]. rewrite (upcast_id count a Hwf). cbv zeta.
+  rewrite (cpm_ok name a None count Hwf).
+  unfold sprop_of. destruct Hwf as [_ [_ [Hp _]]].
   destruct (a_payload a) as [k|x y k|k|s k| |elems]; try reflexivity.
   destruct Hp as [Hne [Hu [_ [Hl _]]]].
   destruct (serialize_wf elems count Hne Hu Hl) as [rows [data [Hs _]]]. rewrite Hs. reflexivity.
@@ -801,7 +924,7 @@ Qed.
 (* the view of what was stored is the view of what was given *)
 Lemma sprop_view_of count name a : arr_wf count a -> sprop_view (name, sprop_of a) = parr_view (name, a).
 Proof.
-  intros [Hlen [_ Hp]]. unfold sprop_view, parr_view, sprop_of. cbn [fst snd].
+  intros [Hlen [_ [Hp _]]]. unfold sprop_view, parr_view, sprop_of. cbn [fst snd].
   destruct (a_payload a) as [k|x y k|k|s k| |elems]; try reflexivity.
   destruct Hp as [Hne [Hu [Hwf [Hl Ht]]]].
   destruct (serialize_wf elems count Hne Hu Hl) as [rows [data [Hs Hr]]]. rewrite Hs.
@@ -866,7 +989,7 @@ Proof.
   2:{ rewrite meta_of_names. exact Hnd. }
   2:{ apply in_map. exact He. }
   2:{ apply meta_of_name. }
-  destruct Hwf as [Hlen [Hms Hp]]. unfold meta_of, sprop_of.
+  destruct Hwf as [Hlen [Hms [Hp _]]]. unfold meta_of, sprop_of.
   destruct (a_payload (e_arr e)) as [k|x y k|k|s k| |elems] eqn:Epl; cbn [pm_varlen pm_dt sp_data sp_dt sp_len sp_missing];
     try (rewrite dtype_eqb_refl, Hlen, Nat.eqb_refl; cbn;
          destruct (a_missing (e_arr e)) as [ms|] eqn:Em; [rewrite (Hms ms eq_refl), Nat.eqb_refl|]; reflexivity).
@@ -912,9 +1035,9 @@ Lemma axis_rec_entry inc n name type unit dts pl ax :
             ax_bounded ax = Nat.ltb 0 n.
 Proof.
   intros Hpl Hok Hin. unfold axis_rec, axis_entry in *. destruct inc; [|destruct Hin].
-  destruct (Hok eq_refl) as [dt [-> _]]. destruct Hin as [<-|[]].
+  destruct (Hok eq_refl) as [dt [Edt _]]. rewrite Edt. destruct Hin as [<-|[]].
   eexists. split; [left; reflexivity|]. split; [reflexivity|]. split; [|reflexivity].
-  exists dt, pl. split; [exact Hpl | reflexivity].
+  exists dt, pl. split; [exact Hpl | split; [exact (np_dtype_storable _ _ Edt) | reflexivity]].
 Qed.
 
 Lemma axis_recs_entry p n ax : axes_dtypes_ok p n -> In ax (axis_recs p n) ->
@@ -942,12 +1065,20 @@ Proof.
   rewrite (H x (or_introl eq_refl)). apply IH. intros y Hy. apply H. right; exact Hy.
 Qed.
 
+(* the store of an accepted request, in closed form *)
+Definition spec_store (p : params) (iddt : dtype) : store :=
+  {| s_meta := {| m_directed := p_directed p; m_axes := axis_recs p (nn p);
+                  m_nprops := map meta_of (node_entries p); m_eprops := map meta_of (edge_entries p) |};
+     s_iddt := iddt; s_ids := arange_ids (p_n p); s_edt := iddt; s_edges := pedges p;
+     s_nprops := map sp_kv (node_entries p); s_eprops := map sp_kv (edge_entries p) |}.
+
 Theorem write_arrays_spec p iddt :
   names_ok p -> accepted_params p iddt -> is_integer iddt = true ->
   exists st, write_arrays (spec_geff p iddt) = Ok st /\
              store_view st = mem_view (spec_geff p iddt) /\
              validate_structure st = Ok tt /\
-             fill_empty_axes (spec_geff p iddt) = g_nprops (spec_geff p iddt).
+             fill_empty_axes (spec_geff p iddt) = g_nprops (spec_geff p iddt) /\
+             st = spec_store p iddt.
 Proof.
   intros [Hn He] Hacc Hint.
   pose proof (node_entries_names p iddt Hacc) as Hnn. pose proof (edge_entries_names p iddt Hacc) as Hen.
@@ -971,7 +1102,7 @@ Proof.
   rewrite dtype_eqb_refl, Hint. cbn [negb].
   rewrite (write_props_ok (nn p) (node_entries p) Hnw), (write_props_ok (ne p) (edge_entries p) Hew).
   rewrite mapM_id.
-  2:{ intros ax Hin. destruct (Haxis ax Hin) as [e [H1 [H2 [[dt [pl [_ H3]]] H4]]]].
+  2:{ intros ax Hin. destruct (Haxis ax Hin) as [e [H1 [H2 [[dt [pl [_ [_ H3]]]] H4]]]].
       unfold axis_min_max. rewrite (assoc_In (ax_name ax) (e_arr e) (map e_kv (node_entries p))).
       - rewrite H3. cbn [mk_arr a_len]. destruct (Nat.eqb (nn p) 0) eqn:E0; [reflexivity|].
         apply Nat.eqb_neq in E0. destruct ax as [a b c d]. cbn [ax_name ax_type ax_unit ax_bounded] in *. rewrite H4.
@@ -988,12 +1119,12 @@ Proof.
     rewrite (validate_props_ok (nn p) (node_entries p) HndN Hnw), (validate_props_ok (ne p) (edge_entries p) HndE Hew).
     assert (validate_axes (axis_recs p (nn p)) (map sp_kv (node_entries p)) = true) as ->; [|reflexivity].
     unfold validate_axes. apply forallb_forall. intros ax Hin.
-    destruct (Haxis ax Hin) as [e [H1 [H2 [[dt [pl [Hpl H3]]] _]]]].
+    destruct (Haxis ax Hin) as [e [H1 [H2 [[dt [pl [Hpl [_ H3]]]] _]]]].
     rewrite (assoc_In (ax_name ax) (sprop_of (e_arr e)) (map sp_kv (node_entries p))).
     - rewrite H3. unfold sprop_of, mk_arr. cbn [a_payload]. destruct pl; try reflexivity. contradiction.
     - rewrite map_map. exact HndN.
     - rewrite <- H2. apply in_map_iff. exists e. split; [reflexivity | exact H1]. }
-  exists st. rewrite Hval. split; [reflexivity|]. split; [|split; [reflexivity | reflexivity]].
+  exists st. rewrite Hval. split; [reflexivity|]. split; [|split; [reflexivity | split; reflexivity]].
   unfold store_view, mem_view, st.
   cbn [s_iddt s_edt s_ids s_edges s_meta s_nprops s_eprops m_nprops m_eprops m_axes m_directed
        spec_geff g_iddt g_edt g_nprops g_eprops g_meta g_ids g_edges].
@@ -1012,7 +1143,7 @@ Definition req_axis (inc : bool) (name : string) (odt : option dtype) : list psu
 Definition req_extra (kv : pkey * pval) : list psummary :=
   match kv with
   | (KStr name, VDtype dts) => match np_dtype dts with Some dt => [(name, dt, false, false)] | None => [] end
-  | (KStr name, VArray dt _ _) => [(name, dt, false, false)]
+  | (KStr name, VArray dt _ _) => [(name, up_dt dt, false, false)]   (* a float16 array is stored as float32 *)
   | _ => []
   end.
 Definition req_sparse (inc : bool) : list psummary := if inc then [(s_sparse_prop, DF64, false, true)] else [].
@@ -1054,7 +1185,7 @@ Qed.
 
 Lemma extra_entry_summary count kv : map e_summary (extra_entry count kv) = req_extra kv.
 Proof.
-  destruct kv as [[k|] [dts|dt len tail|]]; try reflexivity.
+  destruct kv as [[k|] [dts|dt len tail| |elems]]; try reflexivity.
   cbn [extra_entry req_extra]. destruct (np_dtype dts) as [dt|]; [|reflexivity].
   unfold e_summary, e_kv, parr_view, mk_arr, dtype_payload. cbn [map fst snd a_payload].
   destruct (String.eqb dts "str"); [reflexivity|]. destruct (smem dts arange_dtype_names); reflexivity.
@@ -1078,7 +1209,7 @@ Proof. destruct inc; reflexivity. Qed.
 
 Lemma node_entries_summary p iddt : accepted_params p iddt -> map e_summary (node_entries p) = req_nprops p.
 Proof.
-  intros [_ [_ [_ [_ [_ Hvl]]]]]. unfold node_entries, req_nprops, axis_entries.
+  intros [_ [_ [_ [_ [_ [Hvl _]]]]]]. unfold node_entries, req_nprops, axis_entries.
   rewrite !map_app, !axis_entry_summary by exact I.
   rewrite extra_entries_summary, (varlen_entries_summary _ _ Hvl), sparse_entries_summary. reflexivity.
 Qed.
@@ -1088,7 +1219,7 @@ Proof. unfold edge_entries, req_eprops. rewrite map_app, extra_entries_summary, 
 
 Lemma meta_summary count e : arr_wf count (e_arr e) -> pm_summary (meta_of e) = fst (e_summary e).
 Proof.
-  intros [_ [_ H]]. unfold pm_summary, meta_of, e_summary, pv_summary, parr_view, e_kv, e_arr, e_name in *.
+  intros [_ [_ [H _]]]. unfold pm_summary, meta_of, e_summary, pv_summary, parr_view, e_kv, e_arr, e_name in *.
   destruct e as [[name a] u]. cbn [fst snd] in *.
   destruct (a_payload a) as [k|x y k|k|s k| |elems]; try reflexivity.
   destruct H as [Hne _]. destruct elems as [|e0 r]; [contradiction | reflexivity].
@@ -1140,7 +1271,7 @@ Proof.
   - destruct (Hok eq_refl) as [dt [Hdt Hnum]]. unfold add_axis. rewrite Hdt.
     assert (Nat.ltb 0 n && negb (is_numeric dt) = false) as ->.
     { destruct (Nat.ltb 0 n) eqn:E; [|reflexivity]. apply Nat.ltb_lt in E. rewrite (Hnum E). reflexivity. }
-    rewrite (cpm_ok name (mk_arr dt n pl) (Some unit) n (mk_arr_wf dt n pl Hpl)).
+    rewrite (cpm_ok name (mk_arr dt n pl) (Some unit) n (mk_arr_wf dt n pl Hpl (np_dtype_storable _ _ Hdt))).
     rewrite dict_set_fresh by (apply Hfresh; reflexivity). reflexivity.
   - cbn. rewrite !app_nil_r. reflexivity.
 Qed.
@@ -1156,44 +1287,53 @@ Proof.
   unfold axis_entries, axis_recs. cbn [app]. rewrite !map_app, <- !app_assoc. reflexivity.
 Qed.
 
-Lemma extra_one_ok count kv : item_ok count kv ->
-  exists name a, extra_one count kv = Ok (name, a) /\ extra_entry count kv = [(name, a, None)] /\
-                 fst kv = KStr name /\ arr_wf count a.
+Lemma extra_one_ok reserved count kv : item_ok count kv ->
+  (forall name, fst kv = KStr name -> ~ In name reserved) ->
+  exists name a, extra_one reserved count kv = Ok (name, a) /\ extra_entry count kv = [(name, upcast_arr a, None)] /\
+                 fst kv = KStr name /\ arr_wf count (upcast_arr a).
 Proof.
-  intro H. destruct (extra_entry_ok count kv H) as [name [a [He [Hk [Hwf _]]]]].
-  exists name, a. split; [|split; [exact He | split; [exact Hk | exact Hwf]]].
-  destruct kv as [[k|] [dts|dt len tail|]]; cbn [item_ok] in H; try contradiction; cbn [fst] in Hk; inversion Hk; subst k.
-  - unfold extra_one. cbn [fst snd]. unfold gen_values.
+  intros H Hres. destruct (extra_entry_ok count kv H) as [name [a [He [Hk [Hwf _]]]]].
+  destruct kv as [[k|] [dts|dt len tail| |elems]]; cbn [item_ok] in H; try contradiction; cbn [fst] in Hk; inversion Hk; subst k.
+  - assert (Hr : smem name reserved = false).
+    { destruct (smem name reserved) eqn:E; [|reflexivity]. apply smem_In in E. exfalso. exact (Hres name eq_refl E). }
+    unfold extra_one. cbn [fst snd]. rewrite Hr. unfold gen_values.
     assert (smem dts prop_dtype_names = true) as -> by (apply smem_In; exact H). cbn [negb].
-    cbn [extra_entry] in He. destruct (np_dtype dts) as [dt|]; [|discriminate].
-    inversion He; subst a. reflexivity.
-  - unfold extra_one. cbn [fst snd]. subst len. rewrite Nat.eqb_refl.
-    cbn [extra_entry] in He. inversion He; subst a. reflexivity.
+    cbn [extra_entry] in He |- *. destruct (np_dtype dts) as [dt|]; [|discriminate].
+    fold (dtype_payload name dts count). inversion He; subst a.
+    eexists _, _. split; [reflexivity|]. rewrite (upcast_id count _ Hwf). split; [reflexivity|]. split; [reflexivity | exact Hwf].
+  - assert (Hr : smem name reserved = false).
+    { destruct (smem name reserved) eqn:E; [|reflexivity]. apply smem_In in E. exfalso. exact (Hres name eq_refl E). }
+    destruct H as [Hlen Hst]. unfold extra_one. cbn [fst snd]. rewrite Hr. subst len. rewrite Nat.eqb_refl.
+    cbn [extra_entry] in He |- *. inversion He; subst a.
+    eexists _, _. split; [reflexivity|]. rewrite upcast_given. split; [reflexivity|]. split; [reflexivity | exact Hwf].
 Qed.
 
-Lemma add_extras_ok count items : forall ps ms,
+Lemma add_extras_ok reserved count items : forall ps ms,
   Forall (item_ok count) items -> NoDup (map fst ps ++ item_names items) ->
-  add_extras count items ps ms =
+  (forall x, In x (item_names items) -> ~ In x reserved) ->
+  add_extras reserved count items ps ms =
   Ok (ps ++ map e_kv (flat_map (extra_entry count) items), ms ++ map meta_of (flat_map (extra_entry count) items)).
 Proof.
-  induction items as [|kv r IH]; intros ps ms Hok Hnd; cbn [add_extras flat_map map].
+  induction items as [|kv r IH]; intros ps ms Hok Hnd Hres; cbn [add_extras flat_map map].
   - rewrite !app_nil_r. reflexivity.
   - inversion Hok as [|? ? Hkv Hr]; subst.
-    destruct (extra_one_ok count kv Hkv) as [name [a [H1 [H2 [H3 H4]]]]].
-    rewrite H1, (cpm_ok name a None count H4), H2.
+    destruct (extra_one_ok reserved count kv Hkv) as [name [a [H1 [H2 [H3 H4]]]]].
+    { intros nm Hnm. apply Hres. unfold item_names. cbn [flat_map]. rewrite Hnm. left. reflexivity. }
+    rewrite H1. cbv zeta. rewrite (cpm_ok name (upcast_arr a) None count H4), H2.
     assert (Hnames : item_names (kv :: r) = name :: item_names r).
     { unfold item_names. cbn [flat_map]. rewrite H3. reflexivity. }
-    rewrite Hnames in Hnd.
+    rewrite Hnames in Hnd, Hres.
     rewrite dict_set_fresh by (apply NoDup_app_r_fresh in Hnd; exact Hnd).
-    rewrite IH; [|exact Hr|rewrite map_app; cbn [map fst]; rewrite <- app_assoc; exact Hnd].
+    rewrite IH; [|exact Hr|rewrite map_app; cbn [map fst]; rewrite <- app_assoc; exact Hnd|intros x Hx; apply Hres; right; exact Hx].
     cbn [app map]. rewrite <- !app_assoc. reflexivity.
 Qed.
 
-Lemma with_extras_ok ex count ps ms :
+Lemma with_extras_ok ex reserved count ps ms :
   extras_ok count ex -> NoDup (map fst ps ++ item_names (items_of ex)) ->
-  with_extras ex count ps ms = Ok (ps ++ map e_kv (extra_entries count ex), ms ++ map meta_of (extra_entries count ex)).
+  (forall x, In x (item_names (items_of ex)) -> ~ In x reserved) ->
+  with_extras ex reserved count ps ms = Ok (ps ++ map e_kv (extra_entries count ex), ms ++ map meta_of (extra_entries count ex)).
 Proof.
-  intros [Hnd Hok] Hnames. unfold with_extras, extra_entries. destruct ex as [| |items]; cbn [items_of] in *.
+  intros [Hnd Hok] Hnames Hres. unfold with_extras, extra_entries. destruct ex as [| |items]; cbn [items_of] in *.
   - cbn. rewrite !app_nil_r. reflexivity.
   - contradiction.
   - apply add_extras_ok; assumption.
@@ -1223,19 +1363,21 @@ Qed.
 
 Theorem dummy_accepts p iddt : names_ok p -> accepted_params p iddt -> dummy p = Ok (spec_geff p iddt).
 Proof.
-  intros [Hn He] Hacc.
+  intros Hnok Hacc. destruct (names_ok_elim p Hnok) as [_ [Hrn Hre]]. destruct Hnok as [Hn He].
   pose proof (node_entries_names p iddt Hacc) as Hnn. pose proof (edge_entries_names p iddt Hacc) as Hen.
-  destruct Hacc as [Hid [Hcap [Hax [Hxn [Hxe Hvl]]]]].
+  destruct Hacc as [Hid [Hcap [Hax [Hxn [Hxe [Hvl Hnum]]]]]].
   pose proof (axis_entries_names p (nn p) Hax) as Hnames.
   destruct (extra_entries_facts _ _ Hxn) as [Hxnn _]. destruct (extra_entries_facts _ _ Hxe) as [Hxen _].
   unfold dummy. rewrite Hid.
   assert (is_integer iddt && (dt_max iddt + 1 <? p_n p) = false) as ->.
   { destruct (is_integer iddt) eqn:Ei; [|reflexivity]. specialize (Hcap eq_refl). cbn. lia. }
+  rewrite Hnum. cbn [negb].
   cbv zeta. fold (nn p). fold (pedges p). fold (ne p).
   rewrite (add_axes_ok p (nn p) Hax).
-  rewrite (with_extras_ok _ _ _ _ Hxn).
+  rewrite generated_node_eq, generated_edge_eq.
+  rewrite (with_extras_ok _ _ _ _ _ Hxn); [| |exact Hrn].
   2:{ rewrite map_fst_e_kv, Hnames. rewrite app_assoc in Hn. apply NoDup_app_l in Hn. exact Hn. }
-  rewrite (with_extras_ok _ _ _ _ Hxe) by (cbn [map fst app]; apply NoDup_app_l in He; exact He).
+  rewrite (with_extras_ok _ _ _ _ _ Hxe); [|cbn [map fst app]; apply NoDup_app_l in He; exact He|exact Hre].
   cbn [app].
   rewrite add_varlen_ok; [|exact Hvl|].
   2:{ intros Hv Hin. rewrite map_app, !map_fst_e_kv, Hnames, Hxnn in Hin.
@@ -1264,51 +1406,65 @@ Proof. unfold view_valid, mem_view. cbn. apply mock_edges_valid. Qed.
 Lemma view_valid_check v : view_valid v -> graph_valid v = Ok tt.
 Proof. unfold view_valid, graph_valid. intro H. apply valid_graph_check in H. rewrite H. reflexivity. Qed.
 
-Theorem dummy_iff p g : names_ok p ->
-  (dummy p = Ok g <-> exists iddt, accepted_params p iddt /\ g = spec_geff p iddt).
+(* (0 <= num_nodes is part of the statement because the model is the code's meaning for a non-negative count
+   only: for a negative one numpy's linspace / zeros raise where the model, which counts in nat, goes on) *)
+Theorem dummy_iff p g : req_wf p -> 0 <= p_n p ->
+  (dummy p = Ok g <-> exists iddt, (accepted_params p iddt /\ names_ok p) /\ g = spec_geff p iddt).
 Proof.
-  intro Hn. split.
-  - apply dummy_spec. exact Hn.
-  - intros [iddt [Hacc ->]]. apply dummy_accepts; assumption.
+  intros Hw _. split.
+  - intro H. destruct (dummy_spec p g Hw H) as [iddt [Hacc [Hn ->]]]. exists iddt. split; [split; assumption | reflexivity].
+  - intros [iddt [[Hacc Hn] ->]]. apply dummy_accepts; assumption.
 Qed.
 
-Theorem dummy_honours p g : names_ok p -> 0 <= p_n p -> dummy p = Ok g ->
+(* a contradictory request (an extra property named like a generated one) is never accepted *)
+Theorem dummy_rejects_clash p g : req_wf p -> dummy p = Ok g -> names_ok p.
+Proof. intros Hw H. destruct (dummy_spec p g Hw H) as [iddt [_ [Hn _]]]. exact Hn. Qed.
+
+Theorem dummy_honours p g : req_wf p -> 0 <= p_n p -> dummy p = Ok g ->
   honours p (mem_view g) /\ view_valid (mem_view g) /\ graph_valid (mem_view g) = Ok tt.
 Proof.
-  intros Hn H0 H. destruct (dummy_spec p g Hn H) as [iddt [Hacc ->]].
+  intros Hw H0 H. destruct (dummy_spec p g Hw H) as [iddt [Hacc [_ ->]]].
   split; [apply spec_honours; assumption|]. split; [apply spec_valid|]. apply view_valid_check, spec_valid.
 Qed.
 
-Theorem mock_spec p st g : names_ok p -> mock p = Ok (st, g) ->
-  exists iddt, accepted_params p iddt /\ is_integer iddt = true /\ g = spec_geff p iddt /\
+Theorem mock_spec p st g : req_wf p -> 0 <= p_n p -> mock p = Ok (st, g) ->
+  exists iddt, accepted_params p iddt /\ names_ok p /\ is_integer iddt = true /\ g = spec_geff p iddt /\
                write_arrays g = Ok st /\ store_view st = mem_view g /\ validate_structure st = Ok tt.
 Proof.
-  intros Hn H. unfold mock in H. destruct (dummy p) as [g0|] eqn:Ed; [|discriminate].
-  destruct (dummy_spec p g0 Hn Ed) as [iddt [Hacc ->]].
+  intros Hw _ H. unfold mock in H. destruct (dummy p) as [g0|] eqn:Ed; [|discriminate].
+  destruct (dummy_spec p g0 Hw Ed) as [iddt [Hacc [Hn ->]]].
   destruct (write_arrays (spec_geff p iddt)) as [st0|] eqn:Ew; [|discriminate].
   assert (Hint : is_integer iddt = true).
   { unfold write_arrays in Ew. cbn [spec_geff g_iddt g_edt] in Ew. rewrite dtype_eqb_refl in Ew. cbn [negb] in Ew.
     destruct (is_integer iddt); [reflexivity | discriminate]. }
-  destruct (write_arrays_spec p iddt Hn Hacc Hint) as [st1 [H1 [H2 [H3 H4]]]].
+  destruct (write_arrays_spec p iddt Hn Hacc Hint) as [st1 [H1 [H2 [H3 [H4 _]]]]].
   rewrite Ew in H1. inversion H1; subst st1; clear H1.
   rewrite H4 in H. inversion H; subst st g; clear H.
-  exists iddt. split; [exact Hacc|]. split; [exact Hint|]. split; [reflexivity|].
+  exists iddt. split; [exact Hacc|]. split; [exact Hn|]. split; [exact Hint|]. split; [reflexivity|].
   split; [exact Ew|]. split; [exact H2 | exact H3].
+Qed.
+
+Theorem mock_store p st g : req_wf p -> 0 <= p_n p -> mock p = Ok (st, g) ->
+  exists iddt, accepted_params p iddt /\ names_ok p /\ is_integer iddt = true /\ st = spec_store p iddt.
+Proof.
+  intros Hw H0 H. destruct (mock_spec p st g Hw H0 H) as [iddt [Hacc [Hn [Hint [-> [Hwr _]]]]]].
+  destruct (write_arrays_spec p iddt Hn Hacc Hint) as [st1 [H1 [_ [_ [_ H5]]]]].
+  exists iddt. split; [exact Hacc|]. split; [exact Hn|]. split; [exact Hint | congruence].
 Qed.
 
 Theorem mock_accepts p iddt : names_ok p -> accepted_params p iddt -> is_integer iddt = true ->
   exists st, mock p = Ok (st, spec_geff p iddt).
 Proof.
   intros Hn Hacc Hint. unfold mock. rewrite (dummy_accepts p iddt Hn Hacc).
-  destruct (write_arrays_spec p iddt Hn Hacc Hint) as [st [H1 [_ [_ H4]]]].
+  destruct (write_arrays_spec p iddt Hn Hacc Hint) as [st [H1 [_ [_ [H4 _]]]]].
   rewrite H1, H4. exists st. reflexivity.
 Qed.
 
-Theorem mock_honours p st g : names_ok p -> 0 <= p_n p -> mock p = Ok (st, g) ->
+Theorem mock_honours p st g : req_wf p -> 0 <= p_n p -> mock p = Ok (st, g) ->
   store_view st = mem_view g /\ validate_structure st = Ok tt /\
   honours p (mem_view g) /\ view_valid (mem_view g) /\ graph_valid (mem_view g) = Ok tt.
 Proof.
-  intros Hn H0 H. destruct (mock_spec p st g Hn H) as [iddt [Hacc [_ [-> [_ [Hsame Hval]]]]]].
+  intros Hw H0 H. destruct (mock_spec p st g Hw H0 H) as [iddt [Hacc [_ [_ [-> [_ [Hsame Hval]]]]]]].
   split; [exact Hsame|]. split; [exact Hval|].
   split; [apply spec_honours; assumption|]. split; [apply spec_valid|]. apply view_valid_check, spec_valid.
 Qed.
@@ -1329,7 +1485,7 @@ Lemma req_extras_plain g items : (forall s, s_varlen s = false -> s_missing s = 
   filter g (flat_map req_extra items) = [].
 Proof.
   intro H. induction items as [|kv r IH]; [reflexivity|]. cbn [flat_map]. rewrite filter_app, IH, app_nil_r.
-  destruct kv as [[k|] [dts|dt len tail|]]; try reflexivity; cbn [req_extra].
+  destruct kv as [[k|] [dts|dt len tail| |elems]]; try reflexivity; cbn [req_extra].
   - destruct (np_dtype dts); [|reflexivity]. cbn. rewrite H; reflexivity.
   - cbn. rewrite H; reflexivity.
 Qed.
@@ -1384,12 +1540,21 @@ Qed.
 Lemma empty_names_ok d : names_ok (empty_params d).
 Proof. unfold names_ok. cbn. split; constructor. Qed.
 
+Lemma simple_req_wf n e d z y x : req_wf (simple_params n e d z y x).
+Proof.
+  unfold req_wf, dict_keys_ok, plain_items, plain_item. cbn. split; [split; [constructor|]|split; [constructor|]].
+  - repeat constructor; cbn; intuition discriminate.
+  - repeat constructor.
+Qed.
+Lemma empty_req_wf d : req_wf (empty_params d).
+Proof. unfold req_wf, dict_keys_ok, plain_items. cbn. repeat split; constructor. Qed.
+
 Lemma simple_accepted n e d z y x : 0 <= n <= 2 ^ 64 -> accepted_params (simple_params n e d z y x) DU64.
 Proof.
   intro Hn. unfold accepted_params. cbn [simple_params p_id p_n p_enp p_eep p_varlen].
   split; [reflexivity|]. split; [intros _; cbn; lia|]. split.
   - split; intros _; exists DF64; split; reflexivity.
-  - split; [split; [discriminate | constructor]|]. split; [|discriminate].
+  - split; [split; [discriminate | constructor]|]. split; [|split; [discriminate | reflexivity]].
     split; [discriminate|]. cbn [items_of]. repeat constructor; cbn; tauto.
 Qed.
 
@@ -1398,7 +1563,7 @@ Proof.
   unfold accepted_params. cbn [empty_params p_id p_n p_enp p_eep p_varlen].
   split; [reflexivity|]. split; [intros _; cbn; lia|]. split.
   - split; intro H; discriminate H.
-  - split; [split; [discriminate | constructor]|]. split; [split; [discriminate | constructor] | discriminate].
+  - split; [split; [discriminate | constructor]|]. split; [split; [discriminate | constructor] | split; [discriminate | reflexivity]].
 Qed.
 
 Lemma max_possible_spec directed n : 0 <= n ->
@@ -1421,7 +1586,7 @@ Lemma honours_unfold p v : honours p v <->
 Proof. reflexivity. Qed.
 
 Lemma wrappers_spec n e d z y x :
-  names_ok (simple_params n e d z y x) /\
+  (req_wf (simple_params n e d z y x) /\ names_ok (simple_params n e d z y x)) /\
   (0 <= n <= 2 ^ 64 -> exists st, mock (simple_params n e d z y x) = Ok (st, spec_geff (simple_params n e d z y x) DU64)) /\
   req_eprops (simple_params n e d z y x) = [("score"%string, DF64, false, false); ("color"%string, DI64, false, false)] /\
   req_nprops (simple_params n e d z y x) =
@@ -1431,17 +1596,17 @@ Lemma wrappers_spec n e d z y x :
   simple_3d n e d = mock (simple_params n e d true true true) /\
   simple_temporal n e d = mock (simple_params n e d false false false).
 Proof.
-  split; [apply simple_names_ok|]. split.
+  split; [split; [apply simple_req_wf | apply simple_names_ok]|]. split.
   - intro Hn. apply mock_accepts; [apply simple_names_ok | apply simple_accepted; exact Hn | reflexivity].
   - split; [reflexivity|]. split; [destruct z, y, x; reflexivity|]. repeat split.
 Qed.
 
 Lemma empty_spec d :
-  names_ok (empty_params d) /\
+  (req_wf (empty_params d) /\ names_ok (empty_params d)) /\
   (exists st, empty_geff d = Ok (st, spec_geff (empty_params d) DU64)) /\
   req_nprops (empty_params d) = [] /\ req_eprops (empty_params d) = [] /\ req_axes (empty_params d) = [].
 Proof.
-  split; [apply empty_names_ok|]. split.
+  split; [split; [apply empty_req_wf | apply empty_names_ok]|]. split.
   - apply mock_accepts; [apply empty_names_ok | apply empty_accepted | reflexivity].
   - repeat split.
 Qed.
